@@ -315,7 +315,7 @@ func run(tier core.Tier) *core.Report {
 	for _, part := range []struct {
 		name string
 		run  func(*core.Report, core.Tier, map[string]bool) int
-	}{{"tdpos", runTdpos}, {"xpoa", runXpoa}, {"single", runSingle}, {"pow.compact", runCompact}, {"pow.isproofed", runIsProofed}, {"pow.chain", runPowChains}} {
+	}{{"tdpos", runTdpos}, {"xpoa", runXpoa}, {"single", runSingle}, {"pow.compact", runCompact}, {"pow.isproofed", runIsProofed}, {"pow.chain", runPowChains}, {"pow.history", runPowHistory}} {
 		t0 := time.Now()
 		n := part.run(rep, tier, distinct)
 		evals += n
@@ -326,8 +326,9 @@ func run(tier core.Tier) *core.Report {
 	rep.Set("distinct_nontrivial", len(distinct))
 	rep.Set("rule", "cases are enumerated as the full cross product of the listed finite domains in index order "+
 		"(TDPoS/XPoA: configuration box x every millisecond x every candidate proposer x ledger mode; single: proposer x signature x key; "+
-		"PoW: exponent x mantissa, target x hash, stub chain x candidate block). A case is non-trivial when the oracle had something to decide: "+
-		"distinct (part, schedule cell kind or candidate class, accepted/rejected) combinations are counted, so a run in which "+
+		"PoW: exponent x mantissa, target x hash, stub chain x candidate block, and call history x candidate block: rightful chain across two retarget heights x tip height at which the instance is constructed x "+
+		"every fixed-length sequence over {ProcessBeforeMiner, CheckMinerMatch on all candidates that extend the tip or compete with it, confirm the next rightful block}, each verdict judged by the reference formula and against the baseline history of an instance that is up since genesis and has just started a mining round). A case is non-trivial when the oracle had something to decide: "+
+		"distinct (part, schedule cell kind or candidate class, [pow.history: position of the candidate relative to the tip, and whether the instance last prepared (start-up / ProcessBeforeMiner) for this height or for another one with the same / an easier / a harder target,] accepted/rejected) combinations are counted, so a run in which "+
 		"everything is rejected or everything accepted yields a small number")
 	rep.Assume("stub LedgerRely serves a linear chain of real BlockAgents and one contract-storage map for every snapshot; the real ledger is not involved")
 	rep.Assume("TDPoS/XPoA are run without bft_config: the chained-BFT justify check of CheckMinerMatch (property C14) is not exercised here")
@@ -335,6 +336,8 @@ func run(tier core.Tier) *core.Report {
 	rep.Assume("a block's height is what the block claims (the header hash does not cover it and Ledger.ConfirmBlock overwrites it after CheckMinerMatch); the reference takes the true height = parent height + 1. Claimed heights are enumerated for PoW (true, 1) and XPoA (true, 2), not for TDPoS")
 	rep.Assume("TDPoS: before the configured init time no term exists, so nobody is entitled there; XPoA has no origin, for timestamps outside the enumerated rounds (negative, extreme) the code's own schedule triple is taken as naming the entitled validator and only accept-implies-entitled, at most one producer and no panic are judged")
 	rep.Assume("PoW covers the Bitcoin-style mode (defaultTarget > 256); the legacy leading-zero-bits mode is not enumerated")
+	rep.Assume("pow.history runs the PoW plugin as NewPluggableConsensus makes it from the genesis configuration (consensus.NewPluginConsensus, StartHeight 1, Index 0, Start()); the pass-through PluggableConsensus layer (height-follows-parent guard) is exercised by pow.chain. " +
+		"A panic of the constructor / ProcessBeforeMiner / ProcessConfirmBlock is reported as an observation (pow.history.*_panics, pow.history.panic_observations), not as a violation: the property speaks about accepted blocks")
 	rep.Assume("PoW expectedPeriod is taken in seconds, as refreshDifficulty divides nanosecond timestamps by 1e9 before comparing")
 	return rep
 }
@@ -365,6 +368,8 @@ func replay(c json.RawMessage) (bool, string, error) {
 		o, err = replayIsProofed(c)
 	case "pow.chain":
 		o, err = replayPowChain(c)
+	case "pow.history":
+		o, err = replayPowHistory(c)
 	default:
 		return false, "", fmt.Errorf("unknown part %q", h.Part)
 	}
